@@ -303,7 +303,7 @@ def run(case, rec):
 def hyp_cases(draw, tier):
     typed = draw(st.booleans())
     opts = gen.node_opts(explicit_ids=True, kinds=typed)
-    spec = draw(gen.forest_specs(max_nodes=14, max_depth=5, max_width=4, min_nodes=2, opts=opts, alphabet=["a", "b", "c", "d", "a1", "b1", "ä"]))
+    spec = draw(gen.forest_specs(max_nodes=14, max_depth=5, max_width=4, min_nodes=0, opts=opts, alphabet=["a", "b", "c", "d", "a1", "b1", "ä"]))
     gen.fix_sibling_ids(spec)
     n = gen.spec_nodes(spec)
     return {"spec": spec, "typed": typed, "start": draw(st.integers(-1, max(0, n - 1)))}
